@@ -25,3 +25,4 @@ open RV.C02
 #print axioms conc_shared_triple_survives
 #print axioms conc_union_view_and_empty
 #print axioms conc_graph_lifecycle
+#print axioms conc_remove_graph_none
